@@ -61,7 +61,11 @@ pub fn make_batches(spec: &str, embed: Option<&[u8]>) -> (SchemaRef, Vec<RecordB
     let mut out = vec![];
     for bi in 0..nb {
         // schema 6: batches with zero rows (empty bodies) in between
-        let n = if sid == 6 && bi % 2 == 0 { 0 } else { rows };
+        let n_out = if sid == 6 && bi % 2 == 0 { 0 } else { rows };
+        // every third seed: the batch handed to the writers is a SLICE (offset 1) of a longer batch,
+        // so array offsets are non-zero and buffers extend beyond the logical rows
+        let pad = if seed % 3 == 0 && sid != 4 { 2 } else { 0 };
+        let n = n_out + pad;
         let cols: Vec<ArrayRef> = match sid {
             0 => vec![Arc::new(Int32Array::from(
                 (0..n).map(|_| if rng.chance(1, 5) { None } else { Some(rng.range(-1000, 1000) as i32) }).collect::<Vec<_>>(),
@@ -137,7 +141,8 @@ pub fn make_batches(spec: &str, embed: Option<&[u8]>) -> (SchemaRef, Vec<RecordB
             ],
             _ => vec![Arc::new(Int32Array::from((0..n).map(|_| rng.range(-5, 5) as i32).collect::<Vec<_>>()))],
         };
-        out.push(RecordBatch::try_new(schema.clone(), cols).expect("generated batch"));
+        let full = RecordBatch::try_new(schema.clone(), cols).expect("generated batch");
+        out.push(if pad > 0 { full.slice(1, n_out) } else { full });
     }
     (schema, out)
 }
